@@ -492,13 +492,23 @@ type Rec struct {
 
 // Builder builds expressions into a CodeBuilder.
 type Builder struct {
-	B    *gx.Build
-	Env  gogen.PkgRef
-	Recs map[*E]Rec
+	B     *gx.Build
+	Env   gogen.PkgRef
+	Recs  map[*E]Rec
+	Decls map[string]types.Type // type of declared objects, captured right after declaration
 }
 
 func NewBuilder(b *gx.Build) *Builder {
-	return &Builder{B: b, Env: b.Pkg.Import(EnvPath), Recs: map[*E]Rec{}}
+	return &Builder{B: b, Env: b.Pkg.Import(EnvPath), Recs: map[*E]Rec{}, Decls: map[string]types.Type{}}
+}
+
+// Decl captures the type the builder's current scope reports for name.
+func (p *Builder) Decl(names ...string) {
+	for _, name := range names {
+		if o := p.B.Pkg.CB().Scope().Lookup(name); o != nil {
+			p.Decls[name] = o.Type()
+		}
+	}
 }
 
 func (p *Builder) record(e *E) {
